@@ -117,6 +117,17 @@ theorem C12_every_block_visited (e : Env) (tc : Nat) (st : List Blk) (b : Blk) (
     (stepRun Quirks.current e tc st).2 ≠ [] :=
   (stepRun_fixed e tc st).2.2 ⟨b, hb, htc, hd⟩
 
+/-- **A type 11/12 block whose data does not decode fails the bundle.** The steps look the blocks up by
+    block type code, not by the class their data dissected to: a block that claims to be a BIB / BCB but
+    is not an abstract security block (one flipped bit in a CBOR head suffices) is visited and counts
+    as FAILED_SEC. -/
+theorem C12_undecodable_security_block_fails (e : Env) (st : List Blk) (b : Blk) (hb : b ∈ st)
+    (hs : isSec b = true) (hp : b.pl = none) :
+    (run Quirks.current e true st).delivered = false ∧ (run Quirks.current e true st).secDeleted = true := by
+  apply C12_fail_closed
+  simp only [bundleDefect, List.any_eq_true, Bool.and_eq_true]
+  exact ⟨b, hb, hs, by simp [blkDefect, hp]⟩
+
 /-- **Any failing target fails the block, at every position.** For a security block of any quirk set,
     acceptance setting and block list: if the target at index `j` of its target list – first, middle
     or last – is missing, has no result list, has not exactly one result, or its cryptographic check
